@@ -36,10 +36,31 @@ EXPERIMENTAL = {'---', '-+-', '-*-', '-/-', '-%-', '-^-', '◇', '○',
 CPP_ONLY_CHARS = {'\x01', '\x00'}   # pending-yield marker / terminator
 
 
+FORMAT_RECEIVER = '\x00format:'     # marks a constant that is the receiver of str.format
+
+
 def split_format(s):
-  """'@CompileAsUdf(%s)' -> ['@CompileAsUdf(', ')'] ; 'col%d' -> ['col']."""
+  """'@CompileAsUdf(%s)' -> ['@CompileAsUdf(', ')'] ; 'col%d' -> ['col'];
+  the receiver of .format is split at its {} fields as well."""
+  if s.startswith(FORMAT_RECEIVER):
+    parts = re.split(r'\{[^{}]*\}', s[len(FORMAT_RECEIVER):])
+    return [p for p in parts if p != '']
   parts = re.split(r'%[sdr]', s)
   return [p for p in parts if p != ''] if len(parts) > 1 else [s]
+
+
+def concat_excused(only_here, here, there):
+  """symbols that differ only by where a concatenation happens: 'Agg' + op
+  on one side and the literals 'Agg+', 'Agg++' on the other."""
+  out = set()
+  for s_ in only_here:
+    # s_ is written whole there as a concatenation of two symbols known there
+    if any(s_ == a + b for a in there for b in there if a and b):
+      out.add(s_)
+    # s_ is a factor of symbols the other side writes whole
+    elif any((s_ + t in there or t + s_ in there) for t in here if t):
+      out.add(s_)
+  return out
 
 
 class PyFacts(object):
@@ -48,6 +69,34 @@ class PyFacts(object):
     self.m = repo.by_name('parse')
     self.cache = {}
     self.auto_helpers = set()
+    # module-level constants (assigned once at module level, never declared
+    # `global` in a function): a reference stands for the literal, so that
+    # moving a table out of a function into a named constant is not a difference
+    self.consts = {}
+    mutable = set()
+    for x in ast.walk(self.m.tree):
+      if isinstance(x, ast.Global):
+        mutable.update(x.names)
+    for st in self.m.tree.body:
+      if isinstance(st, ast.Assign) and len(st.targets) == 1 and isinstance(st.targets[0], ast.Name):
+        n = st.targets[0].id
+        if n in self.consts:
+          mutable.add(n)
+        self.consts[n] = st.value
+    for n in mutable:
+      self.consts.pop(n, None)
+
+  def const_strings(self, name, seen=()):
+    out = set()
+    v = self.consts.get(name)
+    if v is None or name in seen:
+      return out
+    for c in ast.walk(v):
+      if isinstance(c, ast.Constant) and isinstance(c.value, str):
+        out.add(c.value)
+      elif isinstance(c, ast.Name) and c.id in self.consts:
+        out |= self.const_strings(c.id, tuple(seen) + (name,))
+    return out
 
   def raw(self, fi):
     if fi.qualname in self.cache:
@@ -68,11 +117,24 @@ class PyFacts(object):
         if x.msg is not None:
           for c in ast.walk(x.msg):
             diag_ids.add(id(c))
+    callee_ids = {id(x.func) for x in walk_local(fi.node) if isinstance(x, ast.Call)}
+    fmt_receivers = {id(x.func.value) for x in walk_local(fi.node)
+                     if isinstance(x, ast.Call) and isinstance(x.func, ast.Attribute)
+                     and x.func.attr == 'format' and isinstance(x.func.value, ast.Constant)}
     for x in walk_local(fi.node):
       if isinstance(x, ast.Call) and call_tail(x):
         calls.append(call_tail(x))
+      elif isinstance(x, ast.Name) and isinstance(x.ctx, ast.Load) and id(x) not in callee_ids \
+          and x.id in self.m.funcs and self.m.funcs[x.id].parent is None:
+        # a parser function stored in a dispatch table is an alternative tried there
+        calls.append(x.id)
+      if isinstance(x, ast.Name) and isinstance(x.ctx, ast.Load) and x.id in self.consts:
+        (diag if id(x) in diag_ids else strs).update(self.const_strings(x.id))
       if isinstance(x, ast.Constant) and isinstance(x.value, str) and x.value != doc:
-        (diag if id(x) in diag_ids else strs).add(x.value)
+        v = x.value
+        if id(x) in fmt_receivers:
+          v = FORMAT_RECEIVER + v
+        (diag if id(x) in diag_ids else strs).add(v)
     res = dict(strs=strs, diag=diag, rejects=rejects, calls=calls)
     self.cache[fi.qualname] = res
     for sub in fi.nested.values():
@@ -105,11 +167,18 @@ class PyFacts(object):
       out['diag'] |= r['diag']
       out['rejects'] += r['rejects']
       out['calls'] += r['calls']
-    for h in sorted(PY_HELPERS | self.auto_helpers):
-      if h in out['calls'] and h in self.m.funcs and h != name:
-        r = self.raw(self.m.funcs[h])
-        out['strs'] |= r['strs']
-        out['diag'] |= r['diag']
+    folded = set()
+    progress = True
+    while progress:                     # helpers of helpers too
+      progress = False
+      for h in sorted(PY_HELPERS | self.auto_helpers):
+        if h in out['calls'] and h in self.m.funcs and h != name and h not in folded:
+          folded.add(h)
+          progress = True
+          r = self.raw(self.m.funcs[h])
+          out['strs'] |= r['strs']
+          out['diag'] |= r['diag']
+          out['calls'] = out['calls'] + r['calls']
     for inl, callers in INLINED_IN_CPP.items():
       if name in callers and inl in out['calls']:
         r = self.raw(self.m.funcs[inl])
@@ -182,11 +251,23 @@ def norm_syms(ss):
   return out - SCANNER_STATUS
 
 
+_CONSTS = {}
+
+
 def char_class_py(expr):
   """Evaluate a character-class expression of parse.py: unions of
-  set(<const>) / set(string.ascii_*) / set([..consts..])."""
+  set(<const>) / set(string.ascii_*) / set([..consts..]) / named constants."""
   if isinstance(expr, ast.BinOp) and isinstance(expr.op, ast.BitOr):
     return char_class_py(expr.left) | char_class_py(expr.right)
+  if isinstance(expr, ast.Name) and expr.id in _CONSTS:
+    return char_class_py(_CONSTS[expr.id])
+  if isinstance(expr, ast.Call) and call_tail(expr) in ('set', 'frozenset', 'copy') and \
+      expr.args and isinstance(expr.args[0], ast.Name) and expr.args[0].id in _CONSTS:
+    return char_class_py(_CONSTS[expr.args[0].id])
+  if isinstance(expr, ast.Call) and call_tail(expr) == 'copy' and isinstance(expr.func, ast.Attribute):
+    return char_class_py(expr.func.value)
+  if isinstance(expr, (ast.Set, ast.List, ast.Tuple)):
+    return set(tables.const_value(expr))
   if isinstance(expr, ast.Call) and call_tail(expr) == 'set' and expr.args:
     a = expr.args[0]
     d = dotted(a)
@@ -224,6 +305,8 @@ def run(chk):
   repo = chk.repo
   cpp = CppModel(repo.root)
   py = PyFacts(repo)
+  _CONSTS.clear()
+  _CONSTS.update(py.consts)
   chk.extra['cpp_functions'] = len(cpp.funcs)
   py_top = {q for q, f in repo.by_name('parse').funcs.items() if f.parent is None and f.cls is None}
   helpers = cpp_helpers(cpp, py_top)
@@ -250,17 +333,31 @@ def run(chk):
   pi = m.func('ParseInfix')
   py_ops = None
   py_unary = None
+  def lists_in(expr):
+    for l in ast.walk(expr):
+      if isinstance(l, (ast.List, ast.Tuple)):
+        yield l
+      elif isinstance(l, ast.Name) and l.id in py.consts:
+        yield from lists_in(py.consts[l.id])
   for x in walk_local(pi.node):
     if isinstance(x, ast.Assign) and dotted(x.targets[0]) == 'operators':
-      for l in ast.walk(x.value):
-        if isinstance(l, ast.List) and len(l.elts) > 10:
+      for l in lists_in(x.value):
+        if len(l.elts) > 10 and (py_ops is None or len(l.elts) > len(py_ops)):
           py_ops = tables.const_value(l)
     if isinstance(x, ast.Assign) and dotted(x.targets[0]) == 'unary_operators':
       py_unary = tables.const_value(x.value)
+  if py_unary is None:
+    # the membership test `op in <unary operators>` of the split loop
+    for x in walk_local(pi.node):
+      if isinstance(x, ast.Compare) and len(x.ops) == 1 and isinstance(x.ops[0], ast.In):
+        for l in lists_in(x.comparators[0]):
+          vals = tables.const_value(l)
+          if vals and py_ops and set(vals) < set(py_ops) and len(vals) <= 4:
+            py_unary = list(vals)
   if not py_ops or py_unary is None:
     raise AnalysisError('ParseInfix: operator lists not recognised')
   cf = cpp.func('ParseInfix').facts()
-  ordered = [v for v, thr, _ in cf['strings'] if not thr]
+  ordered = cpp.ordered_strings('ParseInfix', helpers)
   # the base list is the longest run of operator strings
   cpp_ops = []
   seen = set()
@@ -300,7 +397,7 @@ def run(chk):
           py_prop_ops = tables.const_value(k.value)
   cppp = cpp.func('ParseProposition').facts()
   cpp_prop_ops = [s for name, strs, thr in cppp['call_args'] for s in strs if s is not None]
-  pstr = [v for v, thr, _ in cppp['strings'] if not thr and v in ('&&', '||')]
+  pstr = [v for v in cpp.ordered_strings('ParseProposition', helpers) if v in ('&&', '||')]
   chk.ob('C06-R1', py_prop_ops is not None and sorted(set(pstr)) == sorted(py_prop_ops),
          'parser_cpp/logica_parse.cpp:ParseProposition',
          'proposition-level infix operators agree (%s)' % py_prop_ops,
@@ -386,6 +483,20 @@ def run(chk):
     py_only = {s for s in ps - cs - cd if s not in EXPERIMENTAL}
     cpp_only = {_utf8(s) for s in cs - ps - pd} - CPP_ONLY_CHARS
     cpp_only = {s for s in cpp_only if s not in ps and s not in pd}
+    # a symbol that one side tests itself and the other leaves to a function
+    # both sides call (which holds it in both parsers) is not a difference
+    common = (set(pf_['calls']) & {rename.get(c, c) for c in cf_['calls']}) - {q}
+    shared = set()
+    for callee in sorted(common):
+      if callee in m.funcs and callee in cpp.funcs:
+        shared |= norm_syms(py.facts(callee)['strs']) & {
+            _utf8(x) for x in norm_syms(cpp_facts(cpp, [callee], helpers)['strs'])}
+    py_only -= shared
+    cpp_only -= shared
+    ex_p = concat_excused(py_only, ps | pd, cs | cd)
+    ex_c = concat_excused(cpp_only, cs | cd, ps | pd)
+    py_only -= ex_p
+    cpp_only -= ex_c
     exp = (ps & EXPERIMENTAL) - cs
     if exp:
       chk.info('%s: experimental operators only in Python: %s' % (q, sorted(exp)))
@@ -406,10 +517,26 @@ def run(chk):
                                         ''.join(sorted((cset | crest) - vcs))))
   c2o = tables.dict_literal(m.module_assign('CLOSE_TO_OPEN'), 'CLOSE_TO_OPEN')
   py_pairs = {(k, tables.const_value(v)) for k, v in c2o.items()}
+  # the C++ bracket table: the namespace-level map, or - when it was turned
+  # into a function - the smallest function that mentions every bracket
+  # (close, open, close, open, ... in source order)
+  brackets = {c for k, v in py_pairs for c in (k, v)}
   kv = cpp.var_strings('kCloseToOpen')
-  cc_ = [v for v, thr in kv['chars']]
+  where = 'kCloseToOpen'
+  if kv is None:
+    cands = []
+    for n, fn_ in cpp.funcs.items():
+      chars_ = [v for v, thr in fn_.facts()['chars'] if not thr]
+      if brackets and brackets <= set(chars_):
+        cands.append((len(chars_), n, chars_))
+    if not cands:
+      raise AnalysisError('anchor missing: C++ bracket table (kCloseToOpen or a function over all brackets)')
+    _, where, chars_ = min(cands)
+    cc_ = [c for c in chars_ if c in brackets]
+  else:
+    cc_ = [v for v, thr in kv['chars']]
   cpp_pairs = {(cc_[i], cc_[i + 1]) for i in range(0, len(cc_) - 1, 2)}
-  chk.ob('C06-R4', py_pairs == cpp_pairs, 'parser_cpp/logica_parse.cpp:kCloseToOpen',
+  chk.ob('C06-R4', py_pairs == cpp_pairs, 'parser_cpp/logica_parse.cpp:%s' % where,
          'bracket table agrees (%s)' % sorted(py_pairs), 'C++ table %s' % sorted(cpp_pairs))
   # ParseGenericCall good_chars
   pg = m.func('ParseGenericCall')
